@@ -13,7 +13,8 @@ RULE = ('cases = sequences of 1-5 dumps into one SQLite table x mode per dump (r
         'inside one dump; a few cases with array/object columns; after every dump the table is read back with SELECT *; '
         'non-trivial = an update hits an existing key or a batch boundary is crossed; distinct = distinct case digest'
         '; round 7: a rewrite over a table whose column had another type (numeric-looking strings, integers into a text column), and the downstream rows observed through results() or behind a second dumper; round 4: history cases optionally declare schema missingValues without the empty string and hold empty strings in value and key columns'
-        "; round 8: another table of the same database whose name starts with the target's name must survive every dump")
+        "; round 8: another table of the same database whose name starts with the target's name must survive every dump"
+        '; round 9: relative SQLite URLs with the working directory changed between building and running; modes given as members of a str-based Enum')
 TRUSTED = ['Coq 8.16.1 kernel + vm_compute', 'harness/p20.py oracle',
            'SQLite / SQLAlchemy / tableschema_sql.Writer are modelled (UPDATE..WHERE keys, batched INSERT, Bloom filter as any superset predicate), not verified; the model is compared with them on every case',
            'Python equality of key tuples is an equivalence (hypothesis of C20_update_with_filter)']
